@@ -105,6 +105,8 @@ def lint_source():
             problems.append("updateAllLocked assigns %s, model says %s" % (sorted(w), sorted(TABLE_WRITES)))
         if "s.mu." in ual or "s.mu." in cl or "s.configureIngressRateLimits(compiled)" not in ual:
             problems.append("updateAllLocked takes the lock itself or does not configure the limiters")
+        if "s.adaptiveController.updateConfig(" not in ual or len(re.findall(r"\.updateConfig\(", src)) != 1:
+            problems.append("the admission controller's settings are not (only) updated inside updateAllLocked (model: part of the single write, field FAdaptive)")
         if ua.count("s.mu.Lock()") != 1 or "s.updateAllLocked(compiled)" not in ua:
             problems.append("updateAll is not Lock + updateAllLocked")
     rc = func_body(src, r"^func reloadConfig\(.*\{$")
@@ -145,7 +147,7 @@ def rewrite_run_go(ctx):
     src = open(path).read()
     m = re.search(r"^func reloadConfig\(.*\{$", src, flags=re.M)
     if not m:
-        return None, [], False
+        return None, [], False, False
     end = src.find("\n}\n", m.end())
     body = src[m.end():end].split("\n")
     out, points, i = [], [], 0
@@ -161,14 +163,14 @@ def rewrite_run_go(ctx):
                     out.append(body[j])
                     j += 1
                 if j == len(body):
-                    return None, [], False
+                    return None, [], False, False
                 out.append(body[j])
                 i = j
             out.append('%sverifSync("after-%s")' % (indent, name))
             points.append("after-" + name)
         i += 1
     new = src[:m.end()] + "\n".join(out) + src[end:]
-    inlock = False
+    inlock = prelock = False
     ml = re.search(r"^func \(s \*runtimeState\) loadAuthAnd\(.*\{$", new, flags=re.M)
     if ml:
         e2 = new.find("\n}\n", ml.end())
@@ -177,13 +179,17 @@ def rewrite_run_go(ctx):
         if k > 0 and 0 < lock < k:
             new = new[:k] + '\n\tverifSync("before-alsoLocked")' + new[k:]
             inlock = True
+        lock = new.find("\n\ts.mu.Lock()\n", ml.end(), new.find("\n}\n", ml.end()))
+        if lock > 0:
+            new = new[:lock] + '\n\tverifSync("before-lock")' + new[lock:]
+            prelock = True
     # self-test: deleting the inserted lines gives the source back
     back = "\n".join(l for l in new.split("\n") if not re.match(r'^\t+verifSync\("[\w-]+"\)$', l))
     if back != src or not points:
-        return None, [], False
+        return None, [], False, False
     dst = os.path.join(ctx.scratch, "run_sync.go")
     open(dst, "w").write(new)
-    return dst, points, inlock
+    return dst, points, inlock, prelock
 
 
 # ---------------------------------------------------------------------------
@@ -225,8 +231,34 @@ def route(path, auth="none", max_body=None, rate=None, pull_path=None, tokens=No
     return "\n".join(ls)
 
 
+# admission-controller / trend settings of the running configurations and of the reloadable delta
+RUN_DEFAULTS = """adaptive_backpressure {
+    enabled on
+    min_total 200
+    queued_percent 90
+    ready_lag 1h
+    oldest_queued_age 2h
+    sustained_growth off
+  }
+  trend_signals {
+    window 15m
+  }"""
+DELTA_DEFAULTS = """adaptive_backpressure {
+    enabled on
+    min_total 4
+    queued_percent 50
+    ready_lag 30s
+    oldest_queued_age 60s
+    sustained_growth off
+  }
+  trend_signals {
+    window 5m
+    recent_surge_percent 40
+  }"""
+
+
 def config(routes, ingress=':18080', pull_listen=':19443', pull_tokens=("raw:pt-global",), admin_listen="127.0.0.1:19444",
-           admin_tokens=("raw:adm-1",), pull_extra="", admin_extra="", ingress_extra="", top=""):
+           admin_tokens=("raw:adm-1",), pull_extra="", admin_extra="", ingress_extra="", top="", defaults=RUN_DEFAULTS, defaults_extra=""):
     ls = ["# verif C18", "ingress {", '  listen "%s"' % ingress]
     if ingress_extra:
         ls.append("  " + ingress_extra)
@@ -239,6 +271,8 @@ def config(routes, ingress=':18080', pull_listen=':19443', pull_tokens=("raw:pt-
     if admin_extra:
         ls.append("  " + admin_extra)
     ls.append("}")
+    if defaults or defaults_extra:
+        ls.append("defaults {\n  " + "\n  ".join(x for x in (defaults, defaults_extra) if x) + "\n}")
     if top:
         ls.append(top)
     ls += routes
@@ -266,7 +300,12 @@ def delta_routes():
     ]
 
 
-DELTA_KW = dict(pull_tokens=("raw:pt-global-2",), admin_tokens=("raw:adm-2",), ingress_extra="rate_limit { rps 1 burst 1 }")
+DELTA_KW = dict(pull_tokens=("raw:pt-global-2",), admin_tokens=("raw:adm-2",), ingress_extra="rate_limit { rps 1 burst 1 }",
+                defaults=DELTA_DEFAULTS)
+
+# synthetic backlogs (queued, leased, age of the oldest in s): below both min_total; in the band where only the delta's
+# thresholds shed (total, queued share, ready lag, oldest age); above both
+BACKLOGS = [(0, 0, 0), (3, 0, 0), (6, 0, 0), (2, 8, 0), (2, 8, 45), (2, 8, 90), (100, 100, 0), (100, 150, 0), (250, 0, 0), (190, 20, 0)]
 
 
 def fingerprint_probes():
@@ -303,7 +342,8 @@ def fingerprint_probes():
         admin.append({"method": "POST", "path": "/applications/app1/endpoints/ep1/messages/publish", "token": tok,
                       "body": json.dumps({"items": [{"id": "m1", "payload_b64": "eA=="}]})})
     worker = [{"path": ep, "token": tok} for ep in ("/pull/a", "/pull/c", "/pull/c-moved") for tok in ("pt-a", "pt-a2", "pt-global", "pt-global-2", "")]
-    return {"ingress": ing, "pull": pull, "admin": admin, "worker": worker, "seed_routes": ["/a", "/b", "/c", "/d", "/e"]}
+    adaptive = [{"queued": q, "leased": l, "age_sec": a, "route": rt} for (q, l, a) in BACKLOGS for rt in ("/d", "/e")]
+    return {"ingress": ing, "pull": pull, "admin": admin, "worker": worker, "adaptive": adaptive, "seed_routes": ["/a", "/b", "/c", "/d", "/e"]}
 
 
 def failed_cases(rng, tier):
@@ -318,12 +358,15 @@ def failed_cases(rng, tier):
         c = {"name": name, "kind": kind, "running": kw.pop("running", run), "new": new if new is not None else ok_new,
              "probes": probes, "limit_hit": hit, "expect": expect}
         c.update(kw)
+        if expect != "ok" and c.get("file_kind") not in ("missing", "dir") and "min_total 4" not in c["new"]:
+            raise RuntimeError("failure case %s does not carry the admission-settings delta" % name)
         cases.append(c)
 
     # controls: the delta alone reloads, and every part of it alone reloads
     add("control:delta", "control", expect="ok")
     add("control:routes-only", "control", new=config(dr), expect="ok")
-    add("control:tokens-only", "control", new=config(running_routes(), **dk), expect="ok")
+    add("control:tokens-only", "control", new=config(running_routes(), **{k: v for k, v in dk.items() if k != "defaults"}), expect="ok")
+    add("control:admission-only", "control", new=config(running_routes(), defaults=DELTA_DEFAULTS), expect="ok")
     add("control:noop", "control", new=run, expect="ok")
     # unreadable
     add("unreadable:missing", "unreadable", file_kind="missing")
@@ -339,16 +382,16 @@ def failed_cases(rng, tier):
     add("compile:duplicate-route", "compile", new=config(dr + [route("/e")], **dk), expect="fail-noncompiling")
     add("compile:forward+basic", "compile", new=config(dr + [route("/f", auth="forward", extra='auth basic "u" "p"')], **dk), expect="fail-noncompiling")
     add("compile:bad-max-body", "compile", new=config(dr + [route("/f", max_body="lots")], **dk), expect="fail-noncompiling")
-    add("compile:no-pull-token", "compile", new=config(dr, pull_tokens=(), admin_tokens=("raw:adm-2",)), expect="fail-noncompiling")
-    add("compile:bad-secret-ref-syntax", "compile", new=config(dr, pull_tokens=("nonsense",)), expect="fail-noncompiling")
+    add("compile:no-pull-token", "compile", new=config(dr, pull_tokens=(), admin_tokens=("raw:adm-2",), defaults=DELTA_DEFAULTS), expect="fail-noncompiling")
+    add("compile:bad-secret-ref-syntax", "compile", new=config(dr, pull_tokens=("nonsense",), defaults=DELTA_DEFAULTS), expect="fail-noncompiling")
     add("compile:unknown-secret-ref", "compile", new=config(dr[:-1] + [route("/e", auth="hmacref:NOPE")], **dk), expect="fail-noncompiling")
     add("compile:rate-nan", "compile", new=config(dr + [route("/f", rate=("NaN", 1))], **dk), expect="fail-noncompiling")
     # secrets that cannot be loaded - at each place loadAuth loads one, with everything before it loadable
     env = {"VERIF_C18_S1": "s1"}
     miss = "env:VERIF_C18_MISSING"
-    add("secret:pull-token-env", "secret", new=config(dr, pull_tokens=(miss,), admin_tokens=("raw:adm-2",)))
-    add("secret:second-pull-token", "secret", new=config(dr, pull_tokens=("raw:pt-global-2", miss), admin_tokens=("raw:adm-2",)))
-    add("secret:admin-token-env", "secret", new=config(dr, pull_tokens=("raw:pt-global-2",), admin_tokens=(miss,)))
+    add("secret:pull-token-env", "secret", new=config(dr, pull_tokens=(miss,), admin_tokens=("raw:adm-2",), defaults=DELTA_DEFAULTS))
+    add("secret:second-pull-token", "secret", new=config(dr, pull_tokens=("raw:pt-global-2", miss), admin_tokens=("raw:adm-2",), defaults=DELTA_DEFAULTS))
+    add("secret:admin-token-env", "secret", new=config(dr, pull_tokens=("raw:pt-global-2",), admin_tokens=(miss,), defaults=DELTA_DEFAULTS))
     add("secret:route-pull-token", "secret", new=config(dr[:-1] + [route("/e", tokens=["raw:x", miss])], **dk))
     add("secret:last-route-hmac", "secret", new=config(dr[:-1] + [route("/e", auth="hmac:" + miss)], **dk))
     add("secret:first-route-hmac", "secret", new=config([route("/a", auth="hmac:" + miss, max_body=128)] + dr[1:], **dk))
@@ -357,7 +400,7 @@ def failed_cases(rng, tier):
     add("secret:file-removed-after-start", "secret", running=config(running_routes()[:-1] + [route("/d", auth="hmac:file:__DIR__/sec", max_body=32, publish="enabled off")]),
         new=config(dr[:-1] + [route("/e", auth="hmac:file:__DIR__/sec")], **dk), files={"sec": "sec-file\n"}, rm_files=["sec"])
     add("secret:env-unset-after-start", "secret", running=config(running_routes(), pull_tokens=("env:VERIF_C18_S1",)),
-        new=config(dr, pull_tokens=("env:VERIF_C18_S1", "raw:pt-global-2"), admin_tokens=("raw:adm-2",)), env_set=env, env_unset=["VERIF_C18_S1"])
+        new=config(dr, pull_tokens=("env:VERIF_C18_S1", "raw:pt-global-2"), admin_tokens=("raw:adm-2",), defaults=DELTA_DEFAULTS), env_set=env, env_unset=["VERIF_C18_S1"])
     sec_block = 'secrets {\n  secret "S1" {\n    value %s\n    valid_from "2020-01-01T00:00:00Z"\n  }\n}'
     add("secret:secrets-block-value", "secret", new=config(dr[:-1] + [route("/e", auth="hmacref:S1")], top=sec_block % miss, **dk))
     add("control:secrets-block", "control", new=config(dr[:-1] + [route("/e", auth="hmacref:S1")], top=sec_block % '"raw:s1v"', **dk), expect="ok")
@@ -375,9 +418,9 @@ def failed_cases(rng, tier):
         ("pull-max-wait", dict(pull_extra="max_wait 9s")),
         ("pull-grpc-listen", dict(pull_extra="grpc_listen 127.0.0.1:19943")),
         ("shared-listener", dict(pull_listen="127.0.0.1:19444", pull_extra="prefix /papi", admin_extra="prefix /admin")),
-        ("defaults-max-body", dict(top="defaults {\n  max_body 1mb\n}")),
-        ("defaults-max-headers", dict(top="defaults {\n  max_headers 8kb\n}")),
-        ("publish-policy", dict(top="defaults {\n  publish_policy {\n    direct off\n  }\n}")),
+        ("defaults-max-body", dict(defaults_extra="max_body 1mb")),
+        ("defaults-max-headers", dict(defaults_extra="max_headers 8kb")),
+        ("publish-policy", dict(defaults_extra="publish_policy {\n    direct off\n  }")),
         ("queue-limits", dict(top="queue_limits {\n  max_depth 17\n}")),
         ("queue-retention", dict(top="queue_retention {\n  max_age 1h\n}")),
         ("delivered-retention", dict(top="delivered_retention {\n  max_age 1h\n}")),
@@ -435,12 +478,12 @@ def vis_variants():
     return vs
 
 
-def vis_config(v):
+def vis_config(v, defaults=RUN_DEFAULTS):
     routes = []
     if v is not None:
         routes.append(route("/a", auth=v[0], max_body=v[1], rate=v[2]))
     routes.append(route("/b", auth="hmac:raw:sec-b"))
-    return config(routes)
+    return config(routes, defaults=defaults)
 
 
 def creds_for(auth):
@@ -478,6 +521,17 @@ def vis_scenarios():
                     reqs.append({"kind": "ingress", "ingress": ing, "prime": pr})
         scs.append({"id": "ing:%s=>%s" % (vname(o), vname(n)), "old": vis_config(o), "new": vis_config(n), "requests": reqs,
                     "seed_routes": []})
+    # admission settings switch together with the route table: a backlog in the band where only one of the two
+    # settings sheds; the reload is held at its sync points only (LockOnly) - a reload landing between two accessors of
+    # such a request would add allowIngressEnqueue pairs to the per-request-reads family (known finding), not enumerated here
+    none = ("none", None, None)
+    for (o, n) in ((none, None), (None, none), (("hmac", None, None), ("basic", None, None)), (none, none), (("basic", None, None), none)):
+        for (od, nd, tag) in ((RUN_DEFAULTS, DELTA_DEFAULTS, "lenient=>strict"), (DELTA_DEFAULTS, RUN_DEFAULTS, "strict=>lenient")):
+            for bl in ((6, 0, 0), (2, 8, 45)):
+                reqs = [{"kind": "ingress", "ingress": dict({"method": "POST", "path": "/a", "body_len": 8}, **cr), "prime": 0}
+                        for cr in ([{}] + [creds_for(v[0]) for v in (o, n) if v is not None and creds_for(v[0])])]
+                scs.append({"id": "adm:%s=>%s:%s:backlog%d/%d/%ds" % ((vname(o), vname(n), tag) + bl), "old": vis_config(o, od), "new": vis_config(n, nd),
+                            "requests": reqs, "seed_routes": [], "backlog": list(bl), "lock_only": True})
     # pull endpoint mapping / allowlists
     def pcfg(a_path, a_tok, b_path, b_tok):
         return config([route("/a", pull_path=a_path, tokens=[a_tok] if a_tok else None),
@@ -536,6 +590,9 @@ def model_predictions(ctx, shapes):
         elif mode == "inlock":
             # the request is issued while the reload is inside its critical section: it can only run after it
             sched = "([AReload] ++ repeat (AReq 0) %d)" % n
+        elif mode == "prelock":
+            # the reload has loaded its secrets but not yet taken the lock: nothing is published
+            sched = "(repeat (AReq 0) %d ++ [AReload])" % n
         else:
             sched = "(repeat AReload %d ++ repeat (AReq 0) %d ++ [AReload; AReload])" % (k + 1, n)
         defs.append("(map (fun o => map snd o) (observations code_shape 1 [%s] %s), P_no_mixture (observations code_shape 1 [%s] %s))"
@@ -757,7 +814,7 @@ def main(ctx, replay):
         "handlers are wired to the state by the shim as startServers does (assignments compared with the source text every run)",
     ]
     lint = lint_source()
-    sync_src, points, inlock = rewrite_run_go(ctx)
+    sync_src, points, inlock, prelock = rewrite_run_go(ctx)
     if sync_src is None:
         # DESIGN section 7: fail loudly rather than silently not entering the windows
         raise RuntimeError("no sync point could be placed in reloadConfig (shape of the function changed): adapt props/c18.py rewrite_run_go")
@@ -825,7 +882,7 @@ def main(ctx, replay):
     shards = [scs[i::8] for i in range(8)]
 
     def run_shard(i):
-        rc, out, err = C.harness_run(hbin, ["reload-visibility"], {"dir": os.path.join(ctx.scratch, "v%d" % i), "scenarios": shards[i], "sync_points": len(points), "inlock": inlock})
+        rc, out, err = C.harness_run(hbin, ["reload-visibility"], {"dir": os.path.join(ctx.scratch, "v%d" % i), "scenarios": shards[i], "sync_points": len(points), "inlock": inlock, "prelock": prelock})
         if rc != 0:
             raise RuntimeError("reload-visibility: " + err[-2000:])
         return json.loads(out)
@@ -835,7 +892,7 @@ def main(ctx, replay):
         outs = list(ex.map(run_shard, range(8)))
     sync_avail = any(o["sync_point_available"] for o in outs)
     inlock_reached = any(o["inlock_point_reached"] for o in outs)
-    n_inlock = n_inlock_progress = 0
+    n_inlock = n_inlock_progress = n_prelock = 0
     by_id = {}
     for o in outs:
         for s in o["scenarios"]:
@@ -857,8 +914,10 @@ def main(ctx, replay):
                 evaluations += 1
                 vers = classify(rr["old"], rr["new"], m)
                 cbs = tuple(c["cb"] for c in m["calls"])
-                mode = "full" if m["mode"].startswith("full") else ("inlock" if m["mode"] == "inlock" else "window")
+                mode = "full" if m["mode"].startswith("full") else (m["mode"] if m["mode"] in ("inlock", "prelock") else "window")
                 k = m["position"] if mode == "full" else max(m["position"], 0)
+                if mode == "prelock":
+                    n_prelock += 1
                 if mode == "inlock":
                     n_inlock += 1
                     if m["progress"]:
@@ -891,6 +950,8 @@ def main(ctx, replay):
         if obs_ok and mode == "full":
             # an outcome that is neither old nor new although every identifiable read agrees: not explained by the model
             key = "reload-unexplained-outcome"
+        elif mode == "prelock":
+            key = "reload-early-publish"        # part of the new configuration is live before the reload's critical section
         elif mode == "inlock":
             key = "reload-two-lock-window"      # a request was served between the two halves although they share a critical section
         elif mode == "window":
@@ -910,6 +971,7 @@ def main(ctx, replay):
         _report(ctx, "reload-model-mismatch:" + cm["callback"], "accessor saw version %s, Model/Reload.v predicts %s" % (cm["observed"], cm["model"]),
                  {"kind": "schedule", "case": cm})
     WHAT = {
+        "reload-early-publish": "a request served while reloadConfig is still before its critical section (secrets loaded, nothing published yet) is already decided partly under the new configuration",
         "reload-two-lock-window": "a request served while reloadConfig is between its two critical sections (loadAuth has published the new authenticator/allowlist tables, updateAll has not yet published the new route table, pull mapping and limiters) is decided under a mixture of the old and the new configuration",
     }
     for key in sorted(findings):
@@ -924,6 +986,7 @@ def main(ctx, replay):
     dist.update({"visibility_scenarios": len(scs), "visibility_restart_skipped": n_restart, "mixed_runs": n_mixed,
                  "runs_with_version_mixture": n_version_mix, "runs_with_observable_mixture": n_outcome_mix,
                  "distinct_request_shapes_checked_against_model": len(shapes), "sync_points": points, "windows_between_sync_points_entered": sync_avail,
+                 "prelock_point_placed": prelock, "requests_served_while_reload_held_just_before_its_critical_section": n_prelock,
                  "inlock_point_placed": inlock, "inlock_point_reached": inlock_reached, "requests_issued_while_reload_inside_its_critical_section": n_inlock,
                  "of_which_got_an_accessor_answer_before_the_reload_left_it": n_inlock_progress,
                  "mixture_keys": {k: len(v) for k, v in sorted(findings.items())}})
@@ -1104,7 +1167,7 @@ def main(ctx, replay):
         "rule": "distinct (a) failure-injection cases that reached their failure exit with a reloadable delta present, (b) (mixture key, config pair) with an outcome that is neither all-old nor all-new, (c) syscall traces accepted by replace_ok and kill points that hit, (d) mutation cases that wrote the file or were refused for a property-relevant reason",
         "samples": samples[:10],
         "traces_validated_against_impl": n_mixed + len(trace_info) + len(res_a) + len(mres) + len(mmres),
-        "exhaustive": "part (b): all ordered pairs of 17 route variants (absent | auth x max_body x rate_limit) x every reload position x credential/body variants",
+        "exhaustive": "part (b): all ordered pairs of 17 route variants (absent | auth x max_body x rate_limit) x every reload position x credential/body variants; plus 20 admission-settings scenarios (lenient<->strict x 5 route pairs x 2 backlogs) at the sync points",
         "input_distribution": dist,
         "source_lint": lint,
     })
